@@ -38,16 +38,20 @@ func ruleA18(r *Run, p *Prog) {
 	if !r.Anchor(prefix != nil, "A18", "cbor.appendCborTypePrefix") {
 		return
 	}
+	// encoder functions, judged with their private helpers inlined (a header helper such as
+	// "inline if small, else prefix" is part of every appender that calls it); the prefix
+	// function itself stays a call: it is the anchor of the definite-length rules
+	keepPrefix := func(g *ssa.Function) bool { return g == prefix }
 	var encFns []*ssa.Function
-	for _, f := range p.ModFns {
-		if pkgRel(f) == cborRel && f.Parent() == nil && (isAppenderSig(f.Signature) || (f.Signature.Recv() != nil && isAppenderSigRecv(f.Signature))) {
+	for _, f := range p.RootViews([]string{cborRel}, "keep-prefix", keepPrefix) {
+		if f.Parent() == nil && (isAppenderSig(f.Signature) || (f.Signature.Recv() != nil && isAppenderSigRecv(f.Signature))) {
 			encFns = append(encFns, f)
 		}
 	}
 	// R1: inline headers  major|byte(v)  need v <= C with C <= 23
 	nInline := 0
 	for _, f := range encFns {
-		if f == prefix {
+		if viewRoot(f) == prefix {
 			continue
 		}
 		eachInstr(f, func(b *ssa.BasicBlock, i int, in ssa.Instruction) {
@@ -299,7 +303,7 @@ func constantUint64(c *ssa.Const) (uint64, bool) {
 func ruleA18Payload(r *Run, p *Prog, encFns []*ssa.Function, prefix *ssa.Function) {
 	n := 0
 	for _, f := range encFns {
-		if f == prefix {
+		if viewRoot(f) == prefix {
 			continue
 		}
 		var headers []*ssa.Call
